@@ -347,11 +347,112 @@ type hashCall struct {
 	Call  *ssa.Call
 }
 
-// hashCalls lists hash("label", …) calls of f with their argument kinds.
+// cipherCtor: a helper of package crypto that builds a cipher from hash(label, …) of its own parameters
+// (newCipher(label string, sb, skey []byte) (*rc4.Cipher, error)): which parameter is the label, which parameters are
+// hashed in which order, and whether it discards the first 1024 keystream bytes before handing the cipher out.
+type cipherCtor struct {
+	labelIdx int
+	argIdx   []int
+	discards bool
+}
+
+var cipherCtorMemo = map[*ssa.Function]*cipherCtor{}
+
+func cipherCtorOf(h *ssa.Function) *cipherCtor {
+	if c, ok := cipherCtorMemo[h]; ok {
+		return c
+	}
+	cipherCtorMemo[h] = nil
+	if h == nil || h.Blocks == nil || relPkg(h) != "crypto" {
+		return nil
+	}
+	paramIdx := func(v ssa.Value) int {
+		v = strip(v)
+		if cv, ok := v.(*ssa.Convert); ok {
+			v = cv.X
+		}
+		for i, p := range h.Params {
+			if ssa.Value(p) == v {
+				return i
+			}
+		}
+		return -1
+	}
+	var ctor *cipherCtor
+	allInstrs(h, func(in ssa.Instruction) {
+		nc, ok := in.(*ssa.Call)
+		if !ok || !isStdCall(nc, "crypto/rc4", "", "NewCipher") {
+			return
+		}
+		hc, ok := nc.Call.Args[0].(*ssa.Call)
+		if !ok || !isCallNamed(hc, "crypto", "hash") || len(hc.Call.Args) != 1 {
+			return
+		}
+		el := variadicElems(hc.Call.Args[0])
+		if len(el) < 2 {
+			return
+		}
+		c := &cipherCtor{labelIdx: paramIdx(el[0])}
+		if c.labelIdx < 0 {
+			return
+		}
+		for _, e := range el[1:] {
+			k := paramIdx(e)
+			if k < 0 {
+				return
+			}
+			c.argIdx = append(c.argIdx, k)
+		}
+		// discard before every return that hands the cipher out
+		cv := extractOf(nc, 0)
+		if cv == nil {
+			return
+		}
+		var disc *ssa.Call
+		for _, u := range cipherUsers(cv) {
+			if x, ok := u.(*ssa.Call); ok && isStdCall(x, "crypto/rc4", "Cipher", "XORKeyStream") && x.Call.Args[1] == x.Call.Args[2] {
+				if l, okl := madeLen(x.Call.Args[1]); okl && l == 1024 {
+					disc = x
+				}
+			}
+		}
+		c.discards = disc != nil
+		if disc != nil {
+			for _, ret := range returnsOf(h) {
+				res := retResults(ret)
+				if len(res) > 0 && !isNilConst(res[0]) && !instrDominates(disc, ret) {
+					c.discards = false
+				}
+			}
+		}
+		ctor = c
+	})
+	cipherCtorMemo[h] = ctor
+	return ctor
+}
+
+// hashCalls lists hash("label", …) calls of f with their argument kinds: direct ones, and those made on f's behalf by
+// a cipher constructor helper called with a constant label.
 func hashCalls(f *ssa.Function, sb ssa.Value) []hashCall {
 	var out []hashCall
 	allInstrs(f, func(in ssa.Instruction) {
 		c, ok := in.(*ssa.Call)
+		if ok && !c.Call.IsInvoke() {
+			if ct := cipherCtorOf(c.Call.StaticCallee()); ct != nil {
+				if lbl, okl := constString(c.Call.Args[ct.labelIdx]); okl {
+					hc := hashCall{Label: lbl, Call: c}
+					for _, k := range ct.argIdx {
+						if c.Call.Args[k] == sb {
+							hc.Args = append(hc.Args, "S")
+						} else {
+							hc.Args = append(hc.Args, "SKEY")
+						}
+					}
+					out = append(out, hc)
+				}
+				return
+			}
+		}
 		if !ok || !isCallNamed(c, "crypto", "hash") || len(c.Call.Args) != 1 {
 			return
 		}
@@ -429,9 +530,26 @@ func c08R4(r *Report, ch, sh *ssa.Function) {
 		r.Check(len(missing) == 0, "R4", f.Name()+"/all-labels", f.Pos(), "all five MSE hashes are computed", "MSE hashes missing from "+f.Name()+": "+strings.Join(missing, ", "))
 		// ciphers: rc4.NewCipher(hash(label…)) -> enc / dec of the Conn literal
 		cipherLabel := map[ssa.Value]string{}
+		ctorDiscards := map[ssa.Value]bool{}
+		fromCtor := map[ssa.Value]bool{}
 		var ciphers []ssa.Value
 		allInstrs(f, func(in ssa.Instruction) {
 			c, ok := in.(*ssa.Call)
+			if ok && !c.Call.IsInvoke() {
+				if ct := cipherCtorOf(c.Call.StaticCallee()); ct != nil {
+					for _, x := range hcs {
+						if x.Call == c {
+							if ex := extractOf(c, 0); ex != nil {
+								cipherLabel[ex] = x.Label
+								ciphers = append(ciphers, ex)
+								fromCtor[ex] = true
+								ctorDiscards[ex] = ct.discards
+							}
+						}
+					}
+					return
+				}
+			}
 			if !ok || !isStdCall(c, "crypto/rc4", "", "NewCipher") {
 				return
 			}
@@ -471,6 +589,10 @@ func c08R4(r *Report, ch, sh *ssa.Function) {
 		for _, cv := range ciphers {
 			n++
 			key := fmt.Sprintf("%s/%s-discard-1024", f.Name(), cipherLabel[cv])
+			if fromCtor[cv] {
+				r.Check(ctorDiscards[cv], "R4", key, cv.Pos(), "the constructor helper discards 1024 bytes of keystream before it hands the cipher out", fmt.Sprintf("the first 1024 bytes of the %s keystream are not discarded by the helper that builds the cipher (MSE specification)", cipherLabel[cv]))
+				continue
+			}
 			var disc *ssa.Call
 			users := cipherUsers(cv)
 			for _, u := range users {
